@@ -359,10 +359,13 @@ def w_enumunk(cs):
             o = T(s)
             return ([int(x) for x in o.v], [repr(x) for x in o.v], int(o.t), s.tell(), o.dumps() == d[: s.tell()])
         return f
-    # values that are no members, repeated within a thread and differing between the threads by multiples of 64 / 256
-    # (whatever is remembered per unknown value must not be handed to another thread's value)
-    return [job([0x1234, 0x1234, 1, 0x1234, 0x1234], 0xA1), job([0x1234 + 64, 0x1234 + 128, 0x1234 + 64, 2, 0x1234 + 256], 0xB2),
-            job([0x1234 + 192, 0x1234 + 1024, 0x1234 + 192], 0xC3)]
+    # values that are no members: one thread meets a dozen of them twice each, the others meet many different ones
+    # (whatever is remembered per unknown value -- by value, by hash, in a small table -- must not be handed to another
+    # thread's value; with 30 + 20 other values any table of up to a few hundred slots sees collisions)
+    a = [v for i in range(12) for v in (0x1234 + 7 * i, 0x1234 + 7 * i)]
+    b = [0x4000 + 13 * i for i in range(30)]
+    c = [0x9000 + 5 * i for i in range(20)]
+    return [job(a, 0xA1), job(b, 0xB2), job(c, 0xC3)]
 
 
 def w_unionbits(cs):
